@@ -116,7 +116,7 @@ func c03Record(maxQ int) poly.Sequence {
 	for i := 0; i < nf; i++ {
 		var f poly.Feature
 		f.Type = []string{"gene", "CDS"}[i]
-		loc := [][]string{{"1..3", "<2..2", "complement(3..>3)"}, {"complement(join(1..2,3..3))", "join(<1..1,3..3)", "2..3"}}[i][ax(2, 3)]
+		loc := [][]string{{"1..3", "<2..2", "complement(3..>3)"}, {"complement(join(1..2,3..3))", "join(complement(<1..1),3..3)", "join(<1..1,3..3)"}}[i][ax(2, 3)]
 		f.SequenceLocation = parseLocation(loc)
 		if (full && vChoice(2) == 1) || (!full && (prof+i)%2 == 1) {
 			f.GbkLocationString = loc // cached location text
